@@ -121,18 +121,74 @@ def rule_branch_loop(ctx):
                   f'update depends on tsc_format (control: {ctl}, data: {dat})', loc=ctx.loc(bar, s))
     ctx.floor('C12.TSCINDEP', 3, n_t)
 
-    # MARKER: a constant appended to the branch must be guarded by tsc_format
+    # MARKER: a constant appended to the branch must be guarded by tsc_format, and the rest of its condition must be
+    # evaluated per level (index and the level list change every iteration)
     n_m = 0
+    d = df.defs(bar)
+    varying = set()
+    for x in walk_own(loop):
+        if isinstance(x, (ast.Assign, ast.AugAssign)):
+            for t in (x.targets if isinstance(x, ast.Assign) else [x.target]):
+                varying |= {n_.id for n_ in ast.walk(t) if isinstance(n_, ast.Name)}
+        if isinstance(x, ast.Call) and isinstance(x.func, ast.Attribute) and x.func.attr in ('append', 'extend', 'pop') \
+                and isinstance(x.func.value, ast.Name):
+            varying.add(x.func.value.id)
+
+    def cond_sites(call):
+        """[(constant node, [(test, polarity)])] for constants that can be the appended value."""
+        out = []
+        base = [(t, b) for t, b, _p in pr.control_conditions(q.stmt(call), bar.node)]
+
+        def go(e, conds):
+            if isinstance(e, ast.Constant):
+                out.append((e, conds))
+            elif isinstance(e, ast.IfExp):
+                go(e.body, conds + [(e.test, True)])
+                go(e.orelse, conds + [(e.test, False)])
+        if call.args:
+            go(call.args[0], base)
+        return out
+
+    def stale_names(test, depth=0):
+        """locals read by the test whose value was fixed before the level loop although it depends on per-level state"""
+        bad = []
+        for nm in sorted(df.names_loaded(test)):
+            if nm in varying:
+                continue      # re-assigned every level: the value read is this level's
+            for st, rhs in d.get(nm, []):
+                if rhs is None:
+                    continue
+                if not q.in_body(st, loop.body):
+                    if df.names_loaded(rhs) & varying:
+                        bad.append(f'{nm} (= {norm(rhs)[:50]}, line {st.lineno}, outside the level loop)')
+                elif depth < 3:
+                    bad += stale_names(rhs, depth + 1)
+        return bad
+
+    def reads(test, depth=0):
+        out = set(df.names_loaded(test))
+        if depth < 3:
+            for nm in list(out):
+                for st, rhs in d.get(nm, []):
+                    if rhs is not None:
+                        out |= reads(rhs, depth + 1)
+        return out
     for c in q.calls_named(ctx, bar, f'{BR}.append'):
-        if c.args and isinstance(c.args[0], ast.Constant):
+        for const, conds in cond_sites(c):
             n_m += 1
             s = q.stmt(c)
-            conds = pr.control_conditions(s, bar.node)
-            guarded = any(b and any(df.names_loaded(cj) & {'tsc_format'} and isinstance(cj, ast.Name)
-                                    for cj in pr.conjuncts(t)) for t, b, _p in conds)
-            ctx.check(guarded, 'C12.MARKER', ctx.key(bar, s),
-                      'duplicate marker appended only when tsc_format holds',
-                      'a constant marker can enter a classic (non-TSC) branch', loc=ctx.loc(bar, s))
+            pos = [t for t, b in conds if b]
+            allr = set()
+            for t in pos:
+                allr |= reads(t)
+            guarded = 'tsc_format' in allr
+            stale = [x for t, _b in conds for x in stale_names(t)]
+            perlevel = {'index', HS} <= allr or {'index'} <= allr and any(HS in reads(t) for t in pos)
+            ctx.check(guarded and not stale and perlevel, 'C12.MARKER', ctx.key(bar, s, norm(const)),
+                      'the duplicate marker is appended only when tsc_format holds and the node is the duplicated one of this level',
+                      ('a constant marker can enter a classic (non-TSC) branch' if not guarded else
+                       'the marker decision uses a value fixed before the level loop: ' + '; '.join(stale) if stale else
+                       'the marker decision does not depend on this level\'s index and width'), loc=ctx.loc(bar, s))
     ctx.floor('C12.MARKER', 1, n_m)
     return 3 + n_t + n_m
 
@@ -236,7 +292,102 @@ def rule_tscforward(ctx, rule='C12.TSCFORWARD'):
     return n
 
 
+def rule_cache_commit(ctx, rule='C12.CACHE'):
+    '''MerkleCache bookkeeping: level and length always describe the same prefix of the source.
+      * initialize() rebuilds level and length from scratch for the new depth_higher;
+      * an extension commits the level computed from hashes [start, L) together with length = L, for the same L;
+      * everything the commit uses that was derived from the cache's fields is recomputed on every retry.'''
+    n = 0
+    ini = ctx.func('merkle', 'MerkleCache.initialize')
+    icfg = ctx.cfg(ini)
+    lp = ini.params[1]
+    la = [s for s in q.assigns(ctx, ini, 'self.length') if isinstance(s, ast.Assign) and norm(s.value) == lp]
+    lv = [s for s in q.assigns(ctx, ini, 'self.level') if isinstance(s, ast.Assign) and any(
+        isinstance(c, ast.Call) and q.callee_name(ctx, ini, c) == 'self.source_func' and len(c.args) == 2
+        and norm(c.args[0]) == '0' and norm(c.args[1]) == lp for c in ast.walk(s.value))]
+    dh = [s for s in q.assigns(ctx, ini, 'self.depth_higher')]
+    ok = bool(la) and bool(lv) and bool(dh)
+    why = 'initialize does not rebuild ' + ', '.join(x for x, y in (('length', la), ('level', lv), ('depth_higher', dh)) if not y) + ' from scratch'
+    if ok:
+        for group in (la, lv, dh):
+            if pr.path_avoiding(icfg, [icfg.entry], [icfg.exit], {icfg.node(s) for s in group}) is not None:
+                ok, why = False, 'a path through initialize skips one of the three resets'
+        # the level is computed under the new depth_higher
+        if ok and not all(icfg.dominates(icfg.node(dh[0]), icfg.node(s)) for s in lv):
+            ok, why = False, 'the level is computed before depth_higher is set for the new length'
+    ctx.check(ok, rule, ctx.key(ini, None, 'rebuilds from scratch'),
+              'initialize(length) sets length, depth_higher and a level recomputed from source_func(0, length)',
+              why + ': entries computed for another depth_higher / an older source stay in the level list and later branches are '
+              'folded from them', loc=ctx.loc(ini, ini.node))
+    n += 1
+
+    ext = ctx.func('merkle', 'MerkleCache._extend_to')
+    ecfg = ctx.cfg(ext)
+    L = ext.params[1]
+    reads = [c for c in q.own_calls(ext) if q.callee_name(ctx, ext, c) == 'self.source_func' and len(c.args) == 2]
+    lens = [s for s in q.assigns(ctx, ext, 'self.length')]
+    lvls = [s for s in ext.own_nodes() if isinstance(s, ast.Assign) and isinstance(s.targets[0], ast.Subscript)
+            and ctx.res.canon(s.targets[0].value, ext) == 'self.level']
+    if len(reads) != 1 or len(lens) != 1 or len(lvls) != 1:
+        raise AnalysisError('MerkleCache._extend_to: expected one source read, one level write and one length write')
+    rd = reads[0]
+    okl, whyl = False, ''
+    try:
+        end = q.linear(ctx, ext, ast.BinOp(left=rd.args[0], op=ast.Add(), right=rd.args[1]))
+        okl = q.lin_eq(end, q.linear(ctx, ext, lens[0].value))
+        whyl = f'hashes [{norm(rd.args[0])}, {norm(rd.args[0])} + {norm(rd.args[1])}) are read but length is set to `{norm(lens[0].value)}`'
+    except q.NotLinear:
+        whyl = f'length is set to `{norm(lens[0].value)}`, which is not the end of the range that was read'
+    ctx.check(okl, rule, ctx.key(ext, lens[0], 'length = end of the range read'),
+              'the committed length is the end of the hash range the committed level was computed from',
+              whyl + ': level and length then describe different prefixes (a concurrent, longer extension committed first)',
+              loc=ctx.loc(ext, lens[0]))
+    n += 1
+    # the slice start of the level write corresponds to the start of the range read
+    sl = lvls[0].targets[0].slice
+    oks = isinstance(sl, ast.Slice) and sl.upper is None and sl.lower is not None and \
+        norm(sl.lower).replace(' ', '') == f'{norm(rd.args[0])}>>self.depth_higher'.replace(' ', '')
+    ctx.check(oks, rule, ctx.key(ext, lvls[0], 'level tail replaced from the start of the range read'),
+              'the level tail is replaced from the entry that corresponds to the first hash read',
+              f'the level write `{norm(lvls[0].targets[0])}` does not start at the entry of the first hash read (`{norm(rd.args[0])}`)',
+              loc=ctx.loc(ext, lvls[0]))
+    n += 1
+    # retry discipline: locals used by the commit that derive from cache fields are re-derived inside the retry loop
+    loops = [p for p, _f in q.enclosing_chain(lvls[0], ext.node) if isinstance(p, ast.While)]
+    d = df.defs(ext)
+    if loops:
+        lp_ = loops[0]
+        used = set()
+        for s in (lvls[0], lens[0], q.stmt(rd)):
+            used |= df.names_loaded(s)
+        stale = []
+        seen = set()
+        work = sorted(used)
+        while work:
+            nm = work.pop()
+            if nm in seen or nm in ext.params:
+                continue
+            seen.add(nm)
+            for st, rhs in d.get(nm, []):
+                if rhs is None:
+                    continue
+                reads_state = any(isinstance(a, ast.Attribute) and isinstance(a.value, ast.Name) and a.value.id == 'self'
+                                  and a.attr in ('length', 'level', 'truncations') for a in ast.walk(rhs))
+                if not q.in_body(st, lp_.body):
+                    if reads_state:
+                        stale.append(f'{nm} = {norm(rhs)[:50]} (line {st.lineno})')
+                else:
+                    work += sorted(df.names_loaded(rhs))
+        ctx.check(not stale, rule, ctx.key(ext, lp_, 'retry re-derives from the cache state'),
+                  'everything the commit uses that depends on length / level / the epoch is recomputed on every retry',
+                  'derived before the retry loop and reused after a truncation: ' + '; '.join(stale) +
+                  ' - the retry then reads and writes from an offset beyond the truncated cache', loc=ctx.loc(ext, lp_))
+        n += 1
+    return n
+
+
 def run(ctx):
+    ctx.rule('C12.CACHE', lambda: rule_cache_commit(ctx), 4)
     ctx.rule('C12.INT', lambda: rule_int_all(ctx), 2)
     ctx.rule('C12.ONEAPPEND', lambda: rule_branch_loop(ctx), 7)
     ctx.rule('C12.ALIGN', lambda: rule_align(ctx) + rule_truncate_noop(ctx), 4)
